@@ -63,6 +63,7 @@ pub fn c02_case(bytes: &[u8], stats: &mut Stats, counting: bool, cfg: &GenConfig
         ROW_LIMIT * 2,
     );
     let plain_rows = match plain {
+        ExecOutcome::Budget => return Verdict::Discard("too-much-work".into()),
         ExecOutcome::Rows(r) => r,
         ExecOutcome::ArgError(_) => return Verdict::Discard("args-rejected(C12)".into()),
         ExecOutcome::Panic(..) => return Verdict::Discard("engine-panic-without-batching(C09)".into()),
@@ -92,6 +93,7 @@ pub fn c02_case(bytes: &[u8], stats: &mut Stats, counting: bool, cfg: &GenConfig
         }
     }
     match out {
+        ExecOutcome::Budget => return Verdict::Discard("too-much-work".into()),
         ExecOutcome::Rows(rows) => {
             let same = rows.len() == plain_rows.len() && rows.iter().zip(plain_rows.iter()).all(|(a, b)| a == b);
             if same {
@@ -138,7 +140,7 @@ pub fn c02(ctx: &CheckCtx) -> i32 {
          repo's own snapshot queries over NumbersAdapter under generated schedules.",
     );
     report.assume("only order-preserving schedules are generated (the adapter contract)");
-    let cases = ctx.cases(60_000, 1_000_000);
+    let cases = ctx.cases(600_000, 5_000_000);
     let res = search(ctx, "c02", cases, WORLD_MIN_LEN + 100, WORLD_MAX_LEN + 300, |b, s, counting| {
         c02_case(b, s, counting, &cfg, sched_len)
     });
@@ -148,7 +150,7 @@ pub fn c02(ctx: &CheckCtx) -> i32 {
         let rest = &b[c.consumed().min(b.len())..];
         json!({"schedule": format!("{schedule:?}"), "case": render_world_case(rest, &cfg)})
     });
-    let ncases = ctx.cases(12_000, 200_000);
+    let ncases = ctx.cases(40_000, 400_000);
     let res = search(ctx, "c02-numbers", ncases, 16, 400, numbers::c02_numbers_case);
     report.absorb(res, &|b| numbers::render(b));
     report.finish()
@@ -234,6 +236,7 @@ pub mod numbers {
             }
         }
         match out {
+            ExecOutcome::Budget => return Verdict::Discard("too-much-work".into()),
             ExecOutcome::Rows(rows) => {
                 if rows == plain_rows {
                     Verdict::Pass
@@ -361,6 +364,11 @@ pub fn c03_case(bytes: &[u8], stats: &mut Stats, counting: bool, cfg: &GenConfig
             stats.label("three_or_more_starts");
         }
         if n_starts >= 3 && total >= 2 && zero_start && multi_start && prefix_len < total && prefix_len > 0 {
+            stats.label("strict_class:three_starts_one_empty_one_multi_row_proper_prefix");
+        }
+        // non-trivial: the per-row bound was actually exercised on a case where it can tell lazy from eager -- at least two
+        // starting vertices, at least one row requested, and the iterator dropped before the end or a start without rows
+        if n_starts >= 2 && prefix_len > 0 && (prefix_len < total || zero_start) {
             let mut key = case.key();
             key.extend(prefix_len.to_le_bytes());
             if stats.nontrivial(&key) {
@@ -378,7 +386,9 @@ pub fn c03_case(bytes: &[u8], stats: &mut Stats, counting: bool, cfg: &GenConfig
         Ok(Err(e)) if e.starts_with("HARNESS-SELF-CHECK") => Verdict::HarnessBug(format!("{e}\n{}", case.query_text)),
         Ok(Err(_)) => Verdict::Discard("args-rejected(C12)".into()),
         Err(p) => {
-            if p.in_harness() {
+            if p.is_budget() {
+                Verdict::Discard("too-much-work".into())
+            } else if p.in_harness() {
                 Verdict::Discard("adapter-misuse(C21)".into())
             } else {
                 Verdict::Discard("engine-panic(C09)".into())
@@ -398,11 +408,12 @@ pub fn c03(ctx: &CheckCtx) -> i32 {
         "choice stream -> (prefix length, world); the engine runs over a strictly lazy adapter wrapped in a counter. \
          Checks: nothing pulled before the first next(); after row k at most s(k)+1 starting vertices pulled, where s(k) \
          comes from the reference evaluated per starting vertex; dropping the iterator freezes all counters. \
-         Non-trivial: >= 3 starting vertices, >= 2 rows, some start with 0 rows and some with >= 2, 0 < prefix < total; \
-         distinct by hash of (case, prefix).",
+         Non-trivial: >= 2 starting vertices, >= 1 row requested, and the iterator dropped before the end or some starting \
+         vertex contributing no row (so a read-ahead of the starting vertices would be visible); distinct by hash of (case, prefix). \
+         The label strict_class counts the harder sub-class (>= 3 starts, one without rows, one with >= 2 rows, proper prefix).",
     );
     report.assume("adapters that read ahead are out of scope by the statement; GraphAdapter is one-in-one-out and lazy");
-    let cases = ctx.cases(20_000, 500_000);
+    let cases = ctx.cases(300_000, 3_000_000);
     let res = search(ctx, "c03", cases, WORLD_MIN_LEN, WORLD_MAX_LEN, |b, s, counting| c03_case(b, s, counting, &cfg));
     report.absorb(res, &|b| render_world_case(&b[1.min(b.len())..], &cfg));
     report.finish()
@@ -575,7 +586,7 @@ pub fn c05(ctx: &CheckCtx) -> i32 {
          that stems from a tag (same component / imported into a fold / operand of a fold-count filter) and at least one \
          resolve_property call happened; distinct by case hash.",
     );
-    let cases = ctx.cases(30_000, 1_000_000);
+    let cases = ctx.cases(200_000, 3_000_000);
     let res = search(ctx, "c05", cases, WORLD_MIN_LEN, WORLD_MAX_LEN, |b, s, counting| c05_case(b, s, counting, &cfg));
     report.absorb(res, &|b| render_world_case(b, &cfg));
     report.finish()
@@ -803,11 +814,11 @@ pub fn c21(ctx: &CheckCtx) -> i32 {
          the edge target, a coercion call together with recursion, or an edge/fold expanded from a context without active \
          vertex; distinct by (schema, call-shape) hash.",
     );
-    let cases = ctx.cases(30_000, 1_000_000);
+    let cases = ctx.cases(300_000, 3_000_000);
     let res = search(ctx, "c21", cases, WORLD_MIN_LEN, WORLD_MAX_LEN, |b, s, counting| c21_case(b, s, counting, &cfg));
     report.absorb(res, &|b| render_world_case(b, &cfg));
     report.assume("the main search excludes recursions whose implicit coercion targets an interface unrelated to the edge target (listed finding); a second search includes them and tolerates exactly that signature");
-    let cases = ctx.cases(10_000, 300_000);
+    let cases = ctx.cases(20_000, 400_000);
     let res = search(ctx, "c21-listed", cases, WORLD_MIN_LEN, WORLD_MAX_LEN, |b, s, counting| {
         let mut scratch = Stats::default();
         let v = c21_case(b, &mut scratch, counting, &listed_cfg);
